@@ -44,14 +44,17 @@ class World:
         self.tags = {}      # id(iface) -> {tag: value}
         self.invs = {}      # id(iface) -> [Inv]
         self.calls = []
+        self.retired = []
         n = rng.randint(3, 10 if self.big else 7)
         for i in range(n):
             self.add(i)
 
-    def add(self, i):
+    def add(self, i, twin_of=None):
         rng = self.rng
         k = min(len(self.ifaces), rng.choice([0, 1, 1, 2, 2, 3]))
         bases = tuple(rng.sample(self.ifaces, k))
+        if twin_of is not None:
+            bases = ()
         own, attrs = {}, {}
         for name in NAMES:
             if rng.random() < 0.4:
@@ -67,7 +70,8 @@ class World:
         tags = {t: rng.choice([('v', i, t), ('v', i, t), None, 0, False, ()]) for t in TAGS if rng.random() < 0.35}
         invs = [Inv((i, j), rng.random() < 0.3, self.calls) for j in range(rng.choice([0, 0, 1, 2]))]
         try:
-            I = InterfaceClass('I%d' % i, bases or (Interface,), attrs, __module__=self.mod)
+            I = InterfaceClass(twin_of.__name__ if twin_of is not None else 'I%d' % i, bases or (Interface,), attrs,
+                               __module__=self.mod)
         except Exception as e:
             if type(e).__name__ != 'InconsistentResolutionOrderError':
                 raise
@@ -76,11 +80,38 @@ class World:
             I.setTaggedValue(t, v)
         if invs:
             I.setTaggedValue('invariants', list(invs))
-        self.ifaces.append(I)
+        if twin_of is None:
+            self.ifaces.append(I)
         self.own[id(I)] = own
         self.tags[id(I)] = tags
         self.invs[id(I)] = invs
-        self.ctx.op('iface', I.__name__, nm(bases), sorted(own), sorted(tags), len(invs))
+        self.ctx.op('iface' if twin_of is None else 'redefined-twin', I.__name__, nm(bases), sorted(own), sorted(tags), len(invs))
+        return I
+
+    def reload_twin(self):
+        """An interface is defined again under the same name and module (what reloading a module does) with other
+        definitions, and everything that extended the old object is re-based onto the new one.  The two are equal
+        (same name and module) but not identical; resolution must follow the object that is in __bases__ now."""
+        rng = self.rng
+        cands = [i for i, A in enumerate(self.ifaces)
+                 if tuple(A.__bases__) != (Interface,) and any(A in J.__bases__ for J in self.ifaces)]
+        if not cands:
+            return False
+        i = rng.choice(cands)
+        A = self.ifaces[i]
+        # (the new object hangs directly below the root while the old one does not: two equal-keyed dependents
+        #  of one specification collide in its weak dependents table - an artefact of equal keys, DESIGN 2.5)
+        A2 = self.add(i, twin_of=A)
+        if A2 is None:
+            return False
+        for J in self.ifaces:
+            if any(b is A for b in J.__bases__):
+                J.__bases__ = tuple(A2 if b is A else b for b in J.__bases__)
+        self.ifaces[i] = A2
+        A.__bases__ = ()
+        self.retired.append(A)
+        self.ctx.count('redefined_twins_swapped_in')
+        return True
 
     def resolve(self, I, name):
         hits = [x for x in I.__iro__ if name in self.own.get(id(x), {})]
@@ -290,6 +321,10 @@ def run_case(ctx, rng, job):
     w.check('cold')
     w.check('warm')
     for _ in range(rng.randint(1, 8 if w.big else 4)):
+        if rng.random() < 0.15:
+            if w.reload_twin():
+                w.check('after-twin-swap')
+            continue
         if w.rebase() is False:
             break
         w.check('after-rebase')
